@@ -3394,6 +3394,11 @@ void Analyser::analyseModel(const ModelPtr &model)
 
 bool Analyser::addExternalVariable(const AnalyserExternalVariablePtr &externalVariable)
 {
+    // An external variable has to name a variable, and that variable has to be part of a model.
+    if ((externalVariable == nullptr) || (owningModel(externalVariable->variable()) == nullptr)) {
+        return false;
+    }
+
     if (std::find(pFunc()->mExternalVariables.begin(), pFunc()->mExternalVariables.end(), externalVariable) == pFunc()->mExternalVariables.end()) {
         pFunc()->mExternalVariables.push_back(externalVariable);
 
